@@ -7,6 +7,7 @@ import AcraModel.CrossClient.Tls
 import AcraModel.CrossClient.Keys
 import AcraModel.CrossClient.TlsIdentity
 import AcraModel.CrossClient.TlsServer
+import AcraModel.CrossClient.TlsConn
 import AcraModel.Crypto.Shim
 import Driver.C01
 /-! Driver ops for C02: every reveal-type entry point run under a chosen identity of a key store with
@@ -131,10 +132,12 @@ def runTokCollect (st : TokStore) : List TokOp → TokStore × List String
 def parseAttrList (s : String) : Option (List Bytes) :=
   if s = "_" then some [] else (s.splitOn ",").mapM ofHex
 
+/-- the extractor mode; a `+…` suffix names the certificate chain shape of a server world (the identity of a
+connection is that of the client's own certificate whatever the shape – `connection_identity_is_leaf`) -/
 def parseMode (s : String) : Option IdMode :=
-  match s with
-  | "dn" => some .distinguishedName
-  | "serial" => some .serialNumber
+  match (s.splitOn "+").head? with
+  | some "dn" => some .distinguishedName
+  | some "serial" => some .serialNumber
   | _ => none
 
 /-- 11 tokens: serial keySeed C ST L STREET POSTALCODE O OU CN SERIALNUMBER (the key seed is not part of the model) -/
@@ -163,6 +166,25 @@ def parseCerts : Nat → List String → Option (List (Option Cert) × List Stri
     let (c, rest) ← parseCert toks
     let (cs, rest') ← parseCerts n rest
     pure (some c :: cs, rest')
+
+/-- a certificate of a handshake: role (`L` client certificate, `C` CA certificate, `N` certificate without an
+authentication key usage) followed by the 11 tokens of its description -/
+def parseConnCert : List String → Option (ConnCert × List String)
+  | role :: rest => do
+    let (c, rest') ← parseCert rest
+    match role with
+    | "L" => pure (⟨c, false, true⟩, rest')
+    | "C" => pure (⟨c, true, true⟩, rest')
+    | "N" => pure (⟨c, false, false⟩, rest')
+    | _ => none
+  | [] => none
+
+def parseConnCerts : Nat → List String → Option (List ConnCert × List String)
+  | 0, rest => some ([], rest)
+  | n + 1, toks => do
+    let (c, rest) ← parseConnCert toks
+    let (cs, rest') ← parseConnCerts n rest
+    pure (c :: cs, rest')
 
 def idOut : Out Bytes → String
   | .ok id => hexOf id
@@ -221,6 +243,26 @@ def handle (op : String) (args : List String) : Option String :=
         let site ← (match dialect with | "pg" => some pgWriteSite | "my" => some myWriteSite | _ => none)
         let outs ← runColOps (writeSourceOf site) cols (← nops.toNat?) [] rest
         pure (if outs.isEmpty then "_" else ",".intercalate outs)
+      | _ => none
+  -- tlsconn.id entry mode nchain (role cert)×nchain nextra (role cert)×nextra sendroot (role cert) :
+  -- a client whose certificate chain[0] was issued along chain[1…] by the root (the only certificate the server
+  -- trusts) sends chain ++ extras (++ root); the identity the entry point derives for the connection
+  | "tlsconn.id", entry :: mode :: nchain :: rest => do
+      let (chain, rest) ← parseConnCerts (← nchain.toNat?) rest
+      match rest with
+      | nextra :: rest => do
+        let (extras, rest) ← parseConnCerts (← nextra.toNat?) rest
+        match rest with
+        | sendroot :: rest => do
+          let (root, tail) ← parseConnCert rest
+          if !tail.isEmpty then none
+          let st : TlsState := ⟨chain ++ extras ++ (if sendroot == "1" then [root] else []), [chain ++ [root]]⟩
+          let site ← (match entry with
+            | "grpc" => some grpcSite
+            | "wrap" | "tlsconn" | "conn" => some connSite
+            | _ => none)
+          pure (idOut (siteIdentity site (sha512Extractor (← parseMode mode)) st))
+        | _ => none
       | _ => none
   -- tlsid.seq mode n (cert | nil)×n : one long-lived extractor, the certificates in order
   | "tlsid.seq", mode :: n :: rest => do
